@@ -981,6 +981,7 @@ def run(ctx):
     stream_dtype(ctx, reqs, pending)
     stream_spellings(ctx, reqs, pending)
     stream_entrypoints(ctx, reqs, pending)
+    stream_narrowing(ctx, reqs, pending)
     settle(ctx, reqs, pending)
 
 
@@ -1032,14 +1033,14 @@ def replay(ctx, case):
         return sub.failures[:3] or None
     streams = {'lut': stream_lut, 'palette': stream_palette, 'selwin': stream_selectors, 'sellut': stream_selectors,
                'selrw': stream_selectors, 'place': stream_placement, 'obj': stream_objects, 'paths': stream_paths, 'dtype': stream_dtype,
-               'spell': stream_spellings, 'entry': stream_entrypoints}
+               'spell': stream_spellings, 'entry': stream_entrypoints, 'narrow': stream_narrowing}
     fn = streams.get(stream)
     if fn is not None:
         # deterministic and cheap: re-run the stream and keep the failures of the same case
         fn(sub, [], [])
         keys = [k for k in ('stream', 'idx', 'n', 'sel', 'kind', 'places', 'frame', 'slope', 'intercept', 'out', 'in', 'dtype', 'dtype_spelling',
                             'range_spelling', 'frame_number', 'round', 'family', 'source', 'selector', 'entry', 'voi', 'rw', 'slice', 'cls',
-                            'array_dtype', 'expl') if k in case]
+                            'array_dtype', 'expl', 'image', 'variant', 'mod') if k in case]
         sub.failures = [f_ for f_ in sub.failures if all(_jsonish(f_['case'].get(k)) == _jsonish(case.get(k)) for k in keys)]
     return sub.failures[:3] or None
 
@@ -2291,3 +2292,50 @@ def stream_entrypoints(ctx, reqs, pending):
                         one = ('ok', res[1].array[k]) if res[0] == 'ok' else res
                         check_call(ctx, {'stream': 'entry', 'round': rnd, 'entry': 'get_volume_from_series', 'family': family, 'voi': voi, 'rw': rw,
                                          'slice': k, 'instance': order[k]}, Ps[order[k]], 0, flags, {}, one, 'entry/get_volume_from_series/' + family, hist=False)
+
+
+# ---------------------------------------------------------------------------- narrowing output types (deterministic grid)
+def stream_narrowing(ctx, reqs, pending):
+    """no transform applied x integer output dtype: nothing present, an identity rescale PRESENT (both attributes, slope only,
+    intercept only; image / shared / per-frame), a non-identity rescale, modality switched off - stored values inside and
+    outside the output type.  A value that does not fit must be refused, never wrapped."""
+    variants = {
+        'no-rescale': {},
+        'identity@image': {'rescale': [{'place': 'image', 'vals': [['1', '0']]}]},
+        'identity@shared': {'rescale': [{'place': 'shared', 'vals': [['1', '0']]}]},
+        'identity@perframe': {'rescale': [{'place': 'perframe', 'vals': [['1', '0'], ['1', '0']]}]},
+        'slope-only': {'rescale': [{'place': 'image', 'vals': [['1', None]]}]},
+        'intercept-only': {'rescale': [{'place': 'image', 'vals': [[None, '0']]}]},
+        'shift': {'rescale': [{'place': 'image', 'vals': [['1', '-1']]}]},
+        'inverse-shape': {'pres_shape': 'INVERSE'},
+    }
+    images = [
+        ('u16', {'bits': 16, 'signed': False, 'bits_stored': 16, 'frames': [[[300, 7, 65535]], [[1, 2, 255]]]}),
+        ('s16', {'bits': 16, 'signed': True, 'bits_stored': 16, 'frames': [[[-3, 7, 200]], [[0, 100, 127]]]}),
+        ('u8', {'bits': 8, 'signed': False, 'bits_stored': 8, 'frames': [[[200, 7, 255]], [[1, 2, 127]]]}),
+    ]
+    for iname, base in images:
+        for vname, T in variants.items():
+            P = dict(base, photometric='MONOCHROME2', T=T)
+            st = call(build, P)
+            if st[0] != 'ok':
+                ctx.note('narrowing image could not be built: ' + st[2])
+                continue
+            im = st[1][0]
+            for mod in (None, False):
+                flags = {'rw': None, 'mod': mod, 'voi': False, 'pal': None, 'icc': None, 'pres': True}
+                for dname in ('uint8', 'int8', 'uint16', 'int16', 'int32', 'uint32', 'int64'):
+                    opts = {'dtype': dname}
+                    kw = dict(flag_kwargs(flags), dtype=np.dtype(dname))
+                    for f in (0, 1):
+                        res = call(im.get_frame, f + 1, **kw)
+                        case = {'stream': 'narrow', 'image': iname, 'variant': vname, 'mod': mod, 'dtype': dname, 'frame': f}
+                        check_call(ctx, case, P, f, flags, opts, res, 'narrowing/' + vname, hist=False)
+                        ctx.case(nontrivial_key=('narrow', iname, vname, mod, dname, f) if res[0] == 'ok' else None,
+                                 narrowing=vname, narrowing_outcome=res[0])
+                    batch = call(im.get_frames, **kw)
+                    singles = [call(im.get_frame, f + 1, **kw) for f in (0, 1)]
+                    if all(x[0] == 'ok' for x in singles) and (batch[0] != 'ok' or not np.array_equal(batch[1], np.stack([x[1] for x in singles]))):
+                        ctx.fail({'stream': 'narrow', 'image': iname, 'variant': vname, 'mod': mod, 'dtype': dname, 'frame': 'all'},
+                                 {'why': 'get_frames differs from the single reads', 'res': str(batch[1:])[:200]}, site='narrowing/get_frames')
+    ctx.exhaustive.append('narrowing: 3 stored types x 8 variants (no / identity / partial / shifting rescale, inverse) x modality flag x 7 integer dtypes x 2 frames')
